@@ -1,3 +1,4 @@
+import ArrModel.C08
 import ArrProofs.Lemmas.C08AlongAxis
 /-! `apply_along_axis` with a lane function that returns one element (reductions, counts, positions) -/
 namespace ArrModel
